@@ -65,6 +65,7 @@ type V struct {
 // Result of one execution.
 type Result struct {
 	Out      vsched.Outcome
+	Races    []V // data races found by the scheduler's happens-before detector (valid for pruned executions too)
 	V        []V
 	Summary  string // canonical outcome string (for distinct-outcome accounting)
 	Handled  int
@@ -202,11 +203,17 @@ func frameFor(sc Scenario, client, k int) serverx.Frame {
 // Run executes the scenario once under the given scheduler configuration.
 func Run(sc Scenario, cfg vsched.Config) *Result {
 	r := &run{sc: sc, res: &Result{}, conn: map[int]*connInfo{}}
+	cfg.HB = true
 	r.res.Out = vsched.Run(cfg, r.main)
 	if r.res.Out.Hung {
 		return r.res
 	}
 	r.final()
+	// data races are facts about the executed prefix: they stand even if the execution was cut short (Races is kept apart
+	// from V because a pruned execution's V must not be judged)
+	for _, rc := range r.res.Out.Races {
+		r.res.Races = append(r.res.Races, V{Kind: "data-race", Msg: "unordered conflicting accesses (happens-before over this schedule): " + rc.String(), Attrs: map[string]any{"race": rc.Key()}})
+	}
 	return r.res
 }
 
